@@ -296,12 +296,8 @@ impl<'d> PreparedFields<'d> {
             }
         }
 
-        // So we don't write a spurious end boundary
-        if text_data.is_empty() && streams.is_empty() {
-            boundary = String::new();
-        } else {
-            boundary.push_str("--");
-        }
+        // An empty form is just the closing delimiter.
+        boundary.push_str("--");
 
         content_len += boundary.len() as u64;
 
